@@ -45,7 +45,7 @@ func loadDesign(name string) (*spec.Design, error) {
 }
 
 func init() {
-	for _, p := range []string{"C02", "C03", "C04", "C05", "C06", "C08"} {
+	for _, p := range []string{"C02", "C03", "C04", "C05", "C06", "C08", "C14"} {
 		p := p
 		engine.Register(p, func(t *verifsim.Tape, cfg engine.Config) *engine.Outcome { return runExchange(t, cfg, p) })
 	}
@@ -264,7 +264,7 @@ func runExchange(t *verifsim.Tape, cfg engine.Config, prop string) *engine.Outco
 		o.Violate("harness_panic", "harness_panic", "spec of %s: %v", name, err)
 		return o
 	}
-	faulty := t.Draw("faulty-run", 3) == 2
+	faulty := t.Draw("faulty-run", 3) == 2 && prop != "C14" // the contract check judges intact exchanges only
 	ncfg := simnet.Config{Chunking: true, ForceChunked: 250, HeaderNoise: 250}
 	if faulty {
 		ncfg.CutRequest, ncfg.FlipRequest, ncfg.DupRequest, ncfg.DropRequest = 150, 150, 100, 50
@@ -342,6 +342,8 @@ func runExchange(t *verifsim.Tape, cfg engine.Config, prop string) *engine.Outco
 		var scriptErr error
 		var wantErr *spec.ErrorDef
 		switch prop {
+		case "C14":
+			mode = []string{"valid", "invalid-payload", "invalid-payload", "boundary-ok", "declared"}[t.Draw("c14-mode", 5)]
 		case "C04":
 			switch t.Draw("c04-mode", 4) {
 			case 0, 1:
@@ -543,6 +545,10 @@ func runExchange(t *verifsim.Tape, cfg engine.Config, prop string) *engine.Outco
 		}
 		if prop == "C08" {
 			judgeView(o, w, d, s, m, ex, result, res, viewName, viewClass, cerr, where)
+			continue
+		}
+		if prop == "C14" {
+			judgeContract(o, w, d, name, s, m, ex, mode, brokenSite, payload, where)
 			continue
 		}
 		if resultType(d, m) != nil && (mode == "valid" || mode == "boundary-ok") && (prop == "C03" || prop == "C05") && cerr == nil {
@@ -1382,4 +1388,135 @@ func stackClass(ex *simnet.Exchange) string {
 		f = ex.ReqFault
 	}
 	return f + ":" + fn
+}
+
+
+// ---------------------------------------------------------------------------
+// C14: the OpenAPI 3 document against the server, on the same exchange
+// ---------------------------------------------------------------------------
+
+func judgeContract(o *engine.Outcome, w *world, d *spec.Design, design string, s *spec.Service, m *spec.Method, ex *simnet.Exchange, mode string, st *gen.Site, payload any, where string) {
+	c := loadContract(design)
+	if c.err != nil {
+		o.Features["c14_document_unusable"]++
+		o.Features["c14_doc_error: "+firstLine(c.err.Error())[:min(90, len(firstLine(c.err.Error())))]]++
+		if o.Extra == nil {
+			o.Extra = map[string]string{}
+		}
+		o.Extra["document_error"] = c.err.Error()
+		return
+	}
+	if cl := classifyFailureAny(d, m, payload, nil, ex); cl != "" {
+		o.Features["c14_skipped_known_defect_class"]++
+		return
+	}
+	if st != nil && st.Rule == "format" {
+		o.Features["c14_skipped_format"]++ // formats are only compared where the validator implements them
+		return
+	}
+	if len(gen.Effective(d, s, m)) > 0 {
+		o.Features["c14_secured_method"]++
+	}
+	docErr, route, params, req, routed := c.docVerdictRequest(ex)
+	if docErr != nil && strings.Contains(docErr.Error(), "value out of range") {
+		o.Features["c14_skipped_validator_integer_range"]++ // the validator parses integers as int64: uint64 values above that are its limit, not goa's
+		return
+	}
+	if !routed {
+		o.Features["c14_operation_not_found_in_document"]++
+		return
+	}
+	if docErr != nil && strings.Contains(docErr.Error(), "is not one of the allowed values") && !strings.Contains(docErr.Error(), "request body") {
+		o.Features["c14_skipped_validator_param_enum"]++ // the validator compares a parsed int64 parameter with float64 enum values
+		return
+	}
+	modelValid := mode != "invalid-payload"
+	serverAccepted := len(w.invoked) == 1
+	o.Features["c14_requests_judged"]++
+	if serverAccepted != modelValid {
+		o.Features["c14_server_disagrees_with_model"]++ // C04's subject, not reported twice
+	}
+	top, loc, kind := "", gen.LocBody, ""
+	if st != nil {
+		top = strings.SplitN(strings.SplitN(strings.TrimPrefix(st.Path, "."), ".", 2)[0], "[", 2)[0]
+		loc = locOf(m, top)
+		if f := d.Resolve(m.Payload.Type).Field(top); f != nil {
+			kind = d.Resolve(f.Type).Kind
+		}
+	}
+	// header arrays: goa sends one field line per element, the validator expects the
+	// comma-separated "simple" style and splits values on commas: not comparable
+	headerArray := false
+	if m.Payload != nil {
+		for a := range m.Headers {
+			if f := d.Resolve(m.Payload.Type).Field(a); f != nil && d.Resolve(f.Type).Kind == spec.Array {
+				headerArray = true
+			}
+		}
+	}
+	if headerArray && (loc == gen.LocHeader || (docErr != nil && strings.Contains(docErr.Error(), "in header"))) {
+		o.Features["c14_skipped_header_array_style"]++
+		docErr, modelValid = nil, true
+	}
+	switch {
+	case docErr != nil && modelValid && strings.Contains(docErr.Error(), "doesn't match the format \"int32\"") || docErr != nil && modelValid && strings.Contains(docErr.Error(), "doesn't match the format \"int64\""):
+		o.Violate("contract_forbids_valid_request", "doc-rejects-valid:unsigned-documented-as-signed-format", "%s: the server accepts (and the design allows) this request but openapi3.json forbids it: %v\n  payload %s", where, firstLine(docErr.Error()), gen.Show(payload))
+	case docErr == nil && !modelValid && kind == spec.Map:
+		o.Violate("contract_promises_invalid_request", "doc-accepts-invalid:map-element-constraint", "%s: the request violates %s at %s (inside a map) but conforms to openapi3.json\n  payload %s", where, st.Rule, st.Path, gen.Show(payload))
+	case docErr != nil && modelValid:
+		o.Violate("contract_forbids_valid_request", "doc-rejects-valid:"+errClass(docErr), "%s: the server accepts (and the design allows) this request but openapi3.json forbids it: %v\n  payload %s\n  request %s", where, firstLine(docErr.Error()), gen.Show(payload), firstLineOf(ex.ReqWire))
+	case docErr == nil && !modelValid:
+		o.Violate("contract_promises_invalid_request", fmt.Sprintf("doc-accepts-invalid:%s:loc=%s,type=%s", st.Rule, loc, kind), "%s: the request violates %s at %s (server accepted=%v) but conforms to openapi3.json\n  payload %s\n  request %s", where, st.Rule, st.Path, serverAccepted, gen.Show(payload), firstLineOf(ex.ReqWire))
+	}
+	// responses the server produced must conform to what the document promises for their status
+	if ex.Status > 0 && (serverAccepted || mode == "declared") {
+		o.Features["c14_responses_judged"]++
+		// OpenAPI 3 cannot describe response cookies; goa documents them as a Set-Cookie
+		// header carrying the attribute's schema, which no validator can match against
+		// "name=value": left out of the comparison
+		hdr := ex.RespHeader.Clone()
+		hdr.Del("Set-Cookie")
+		ex2 := *ex
+		ex2.RespHeader = hdr
+		rerr := c.docVerdictResponse(&ex2, route, params, req)
+		if rerr != nil && strings.Contains(rerr.Error(), "value out of range") {
+			rerr = nil
+		}
+		if rerr != nil && strings.Contains(rerr.Error(), "Content-Type has unexpected value") && ex.Status >= 400 {
+			// judged as its own class; the body is then checked under the documented media type
+			o.Violate("contract_response", "response:declared-error:media-type", "%s: the %d error response is sent as %q but openapi3.json documents another media type: %v", where, ex.Status, ex.RespHeader.Get("Content-Type"), firstLine(rerr.Error()))
+			if resp := route.Operation.Responses.Status(ex.Status); resp != nil && resp.Value != nil {
+				for ct := range resp.Value.Content {
+					hdr.Set("Content-Type", ct)
+					break
+				}
+				rerr = c.docVerdictResponse(&ex2, route, params, req)
+			}
+		}
+		if u := resultType(d, m); rerr != nil && u != nil && strings.Contains(rerr.Error(), "is missing") && ex.Status < 400 {
+			o.Violate("contract_response", "response:view-omits-required-attribute", "%s: the %d response (view %q) does not conform to openapi3.json: %v\n  body %q", where, ex.Status, ex.RespHeader.Get("Goa-View"), firstLine(rerr.Error()), clipS(string(ex.RespBody)))
+			rerr = nil
+		}
+		if rerr != nil && (strings.Contains(rerr.Error(), "doesn't match the format \"int32\"") || strings.Contains(rerr.Error(), "doesn't match the format \"int64\"")) {
+			o.Violate("contract_response", "response:unsigned-documented-as-signed-format", "%s: the %d response does not conform to openapi3.json: %v\n  body %q", where, ex.Status, firstLine(rerr.Error()), clipS(string(ex.RespBody)))
+			rerr = nil
+		}
+		if rerr != nil {
+			cls := "success"
+			if ex.Status >= 400 {
+				cls = "declared-error"
+			}
+			o.Violate("contract_response", "response:"+cls+":"+errClass(rerr), "%s: the %d response does not conform to openapi3.json: %v\n  headers %v\n  body %q", where, ex.Status, firstLine(rerr.Error()), ex.RespHeader, clipS(string(ex.RespBody)))
+		}
+	}
+}
+
+func firstLine(s string) string {
+	if i := strings.IndexByte(s, '\n'); i >= 0 {
+		s = s[:i]
+	}
+	if len(s) > 300 {
+		s = s[:300]
+	}
+	return s
 }
